@@ -1,6 +1,8 @@
 /-
 Model driver for C03 (pattern matching and unpacking). Stateful line protocol:
 
+  cfg <0|1> <0|1> <0|1> <0|1>      which repairs the mirrored code contains (Match.Cfg: sizeNullJumps,
+                                   nestedLast, accessFalls, rangeSlices); response `ok`
   arms <nvars> <v|e|m> <arm>*      set the current match; response `ok`
       arm   := (arm (<alt>*) <guard>)            no alternatives = `else`
       alt   := (one <pat>) | (many <pat>*)
@@ -105,6 +107,7 @@ def parseArm : Sexp → Option Arm
   | _ => none
 
 structure St where
+  cfg : Cfg := Cfg.recorded
   nvars : Nat := 0
   mode : String := "e"
   arms : List Arm := []
@@ -226,9 +229,11 @@ def step (st : St) (line : String) : St × String :=
   | .atom "arms" :: nv :: .atom mode :: arms =>
     (match nv.nat?, arms.mapM parseArm with
      | some n, some as =>
-       ({ nvars := n, mode := mode, arms := as },
+       ({ st with nvars := n, mode := mode, arms := as },
         s!"ok early={if as.any armEarly then 1 else 0} binds99={if as.any armBinds99 then 1 else 0}")
      | _, _ => (st, "bad-request"))
+  | [.atom "cfg", .atom a, .atom b, .atom c, .atom d] =>
+    ({ st with cfg := ⟨a == "1", b == "1", c == "1", d == "1"⟩ }, "ok")
   | .atom "s" :: vals =>
     (match vals.mapM parseVal with
      | none => (st, "bad-request")
@@ -243,7 +248,7 @@ def step (st : St) (line : String) : St × String :=
        | some subj =>
          let isVar := st.mode == "v"
          let ρ0 : Env := if isVar then env0.set 99 (vs.headD .null) else env0
-         let r := evalMatch F subj st.arms ρ0
+         let r := evalMatch F st.cfg subj st.arms ρ0
          let tr := ",".intercalate (r.trace.map evStr)
          let code := match r.out with
            | .arm i ρ => s!"A{i} {regsStr st.nvars isVar ρ} T:{tr}"
